@@ -1,0 +1,214 @@
+//go:build verif
+
+package app
+
+import (
+	"sync"
+	"sync/atomic"
+	"time"
+
+	gohealth "github.com/InVisionApp/go-health/v2"
+	"github.com/f1bonacc1/process-compose/src/command"
+	"github.com/f1bonacc1/process-compose/src/types"
+)
+
+// Verification hooks (build tag `verif`). They are installed by the external
+// verification harness; when a variable is nil the hook is a no-op, so a binary
+// built with the tag but without a harness behaves like the original program.
+
+// VerifLaunchInfo describes one launch attempt to the commander seam.
+type VerifLaunchInfo struct {
+	Proc       string
+	Inst       int64
+	Attempt    int
+	Executable string
+	Args       []string
+	IsTty      bool
+	IsMain     bool
+	Conf       *types.ProcessConfig
+}
+
+var (
+	// VerifTraceFn receives one event per linearization point.
+	VerifTraceFn func(ev string, proc string, inst int64, kv []any)
+	// VerifGateFn is called at every check-then-act window; it may block.
+	VerifGateFn func(proc string, inst int64, point string)
+	// VerifCommanderFn may return a scripted commander; nil means "use the real one".
+	VerifCommanderFn func(info VerifLaunchInfo) command.Commander
+	// VerifBackoffFn may scale the restart back-off computed by the code.
+	VerifBackoffFn func(proc string, inst int64, d time.Duration) (time.Duration, bool)
+)
+
+var (
+	verifInstSeq  atomic.Int64
+	verifInsts    sync.Map // *Process -> int64
+	verifAttempts sync.Map // *Process -> *atomic.Int64
+	verifByConf   sync.Map // *types.ProcessConfig -> *Process
+)
+
+// VerifReset forgets all instance bookkeeping (called between scenarios).
+func VerifReset() {
+	verifInstSeq.Store(0)
+	verifInsts = sync.Map{}
+	verifAttempts = sync.Map{}
+	verifByConf = sync.Map{}
+}
+
+func verifInst(p *Process) int64 {
+	if p == nil {
+		return 0
+	}
+	if v, ok := verifInsts.Load(p); ok {
+		return v.(int64)
+	}
+	id := verifInstSeq.Add(1)
+	v, loaded := verifInsts.LoadOrStore(p, id)
+	if loaded {
+		return v.(int64)
+	}
+	return id
+}
+
+func verifRegister(p *Process) {
+	verifInst(p)
+	verifByConf.Store(p.procConf, p)
+}
+
+func verifCommander(p *Process) command.Commander {
+	if VerifCommanderFn == nil {
+		return nil
+	}
+	cnt, _ := verifAttempts.LoadOrStore(p, &atomic.Int64{})
+	attempt := int(cnt.(*atomic.Int64).Add(1))
+	return VerifCommanderFn(VerifLaunchInfo{
+		Proc:       p.getName(),
+		Inst:       verifInst(p),
+		Attempt:    attempt,
+		Executable: p.procConf.Executable,
+		Args:       p.mergeExtraArgs(),
+		IsTty:      p.procConf.IsTty,
+		IsMain:     p.isMain,
+		Conf:       p.procConf,
+	})
+}
+
+func verifTrace(p *Process, ev string, kv ...any) {
+	if VerifTraceFn == nil {
+		return
+	}
+	VerifTraceFn(ev, p.getName(), verifInst(p), kv)
+}
+
+func verifTraceDep(conf *types.ProcessConfig, dep string, ev string, depProc *Process) {
+	if VerifTraceFn == nil {
+		return
+	}
+	var inst int64
+	if v, ok := verifByConf.Load(conf); ok {
+		inst = verifInst(v.(*Process))
+	}
+	cond := ""
+	if d, ok := conf.DependsOn[dep]; ok {
+		cond = d.Condition
+	}
+	VerifTraceFn(ev, conf.ReplicaName, inst, []any{"k", dep, "ki", verifInst(depProc), "cond", cond})
+}
+
+func verifTraceRunner(_ *ProjectRunner, ev string, kv ...any) {
+	if VerifTraceFn == nil {
+		return
+	}
+	VerifTraceFn(ev, "", 0, kv)
+}
+
+func verifGate(p *Process, point string) {
+	if VerifGateFn == nil {
+		return
+	}
+	VerifGateFn(p.getName(), verifInst(p), point)
+}
+
+func verifGateName(name string, point string) {
+	if VerifGateFn == nil {
+		return
+	}
+	VerifGateFn(name, 0, point)
+}
+
+func verifBackoff(p *Process, d time.Duration) (time.Duration, bool) {
+	if VerifBackoffFn == nil {
+		return 0, false
+	}
+	return VerifBackoffFn(p.getName(), verifInst(p), d)
+}
+
+// VerifInjectProbe delivers one probe completion for the running instance of
+// `name` through the real Prober.healthCheckCompleted path. kind is "ready" or
+// "live". It returns false when there is no such instance or prober.
+func (p *ProjectRunner) VerifInjectProbe(name string, kind string, ok bool, contiguousFailures int, errStr string) bool {
+	proc := p.getRunningProcess(name)
+	if proc == nil {
+		return false
+	}
+	prober := proc.readyProber
+	if kind == "live" {
+		prober = proc.liveProber
+	}
+	if prober == nil {
+		return false
+	}
+	state := &gohealth.State{
+		Name:               name,
+		Status:             "ok",
+		Err:                errStr,
+		ContiguousFailures: int64(contiguousFailures),
+	}
+	if !ok {
+		state.Status = "failed"
+	}
+	prober.VerifInject(state)
+	return true
+}
+
+// VerifRegistries returns the names currently present in the running and done registries.
+func (p *ProjectRunner) VerifRegistries() (running []string, done []string) {
+	p.runProcMutex.Lock()
+	for k := range p.runningProcesses {
+		running = append(running, k)
+	}
+	p.runProcMutex.Unlock()
+	p.doneProcMutex.Lock()
+	for k := range p.doneProcesses {
+		done = append(done, k)
+	}
+	p.doneProcMutex.Unlock()
+	return
+}
+
+// VerifMapKeys returns the key sets of the four name-keyed maps of the runner.
+func (p *ProjectRunner) VerifMapKeys() (conf, states, logs, running []string) {
+	p.procConfMutex.Lock()
+	for k := range p.project.Processes {
+		conf = append(conf, k)
+	}
+	p.procConfMutex.Unlock()
+	p.statesMutex.Lock()
+	for k := range p.processStates {
+		states = append(states, k)
+	}
+	p.statesMutex.Unlock()
+	p.logsMutex.Lock()
+	for k := range p.processLogs {
+		logs = append(logs, k)
+	}
+	p.logsMutex.Unlock()
+	p.runProcMutex.Lock()
+	for k := range p.runningProcesses {
+		running = append(running, k)
+	}
+	p.runProcMutex.Unlock()
+	return
+}
+
+// VerifExitCode returns the project exit code field.
+func (p *ProjectRunner) VerifExitCode() int { return p.exitCode }
